@@ -521,14 +521,16 @@ def cvalOfNum : NumLit → Option CVal
 
 def timeSpecError : M α := tokenError "Invalid time specification: \"" "\""
 
-/-- `_current_literal()`; a TIME_PATTERN token that is no valid pattern leaves an error message
-and gives `None` -/
+/-- `_current_literal()`; a TIME_PATTERN token that is no valid pattern, and a NUMBER token that
+`int()` refuses (`ValueError`, caught), leave an error message and give `None` -/
 def currentLiteral : M (Option CVal) := fun st =>
   match st.cur.ty with
   | .number =>
     match cvalOfNum (parseNumber st.cur.str) with
     | some c => .ok (some c) st
-    | none => .raised "ValueError" st
+    | none =>
+      -- `except ValueError: self.token_error('Number is too long: "{}"')`, result dropped
+      .ok none (st.addError ("Number is too long: \"" ++ st.cur.str ++ "\""))
   | .literalString => .ok (some (.v (.str st.cur.str))) st
   | .timePattern =>
     match TP.fromString st.cur.str with
@@ -1257,7 +1259,7 @@ def cycleVarRange (lt : LoopType) (indexVar : String) : M Unit := do
   ifEnd empty
 
 /-- `_pre_loop_with`; the index variable is declared after its range has been parsed (before
-the list for `with i in …`) -/
+`repeat with i in …` is rejected: only `from` and `cycle` may follow the index variable) -/
 def preLoopWith (info : LoopInfo) : M LoopInfo := do
   -- `_init_index_var`
   let st ← getSt
@@ -1266,12 +1268,6 @@ def preLoopWith (info : LoopInfo) : M LoopInfo := do
   nextToken
   let info := { info with indexVar := some indexVar }
   match (← getSt).cur.ty with
-  | .in_ =>
-    addVariable indexVar
-    emit (.moveq (.int 0) (.loopVar .counter))
-    skipToken
-    preLoopListTop .list
-    return { info with ty := .list }
   | .from_ =>
     skipToken
     indexVarRange info.ty indexVar
